@@ -43,6 +43,31 @@ type wit struct {
 // attributes the relation must not depend on are randomised from a.Noise.
 func mk(a attrs) D {
 	r := gen.New(uint64(a.Noise), 77)
+	d := bare(a, r)
+	return attach(a, r, d)
+}
+
+// mkPair builds two descriptors that ride on one and the same signal (a's time and carrier).
+func mkPair(a, b attrs) (D, D) {
+	r := gen.New(uint64(a.Noise), 78)
+	d1, d2 := bare(a, r), bare(b, gen.New(uint64(b.Noise), 79))
+	s := scte35.CreateSCTE35()
+	if a.HasPTS {
+		ts := scte35.CreateTimeSignalCommand()
+		ts.SetHasPTS(true)
+		ts.SetPTS(gots.PTS(a.PTS))
+		s.SetCommandInfo(ts)
+		s.SetPTS(gots.PTS(a.PTS))
+	}
+	if r.Bool() {
+		s.SetDescriptors([]D{d1, d2})
+	} else {
+		s.SetDescriptors([]D{d2, d1})
+	}
+	return d1, d2
+}
+
+func bare(a attrs, r *gen.Rand) D {
 	d := scte35.CreateSegmentationDescriptor()
 	d.SetTypeID(scte35.SegDescType(a.Type))
 	d.SetEventID(a.Event)
@@ -66,6 +91,10 @@ func mk(a attrs) D {
 		}
 		d.SetIsEventCanceled(r.Chance(4)) // not one of the conditions the relation may depend on
 	}
+	return d
+}
+
+func attach(a attrs, r *gen.Rand, d D) D {
 	s := scte35.CreateSCTE35()
 	// the signal time is given in one of several call orders (before / after the descriptor is attached,
 	// through SetPTS or through SetAdjustPTS): the relation depends on the time, not on how it got there
@@ -175,7 +204,17 @@ func run(c *mon.Ctx) {
 					}
 					od := mk(b)
 					for _, ic := range incs {
-						want := ref.CanClose(byte(in), byte(out), evEq, ptsEq, ic.numEq)
+						// "whether their signals' PTS values are equal" is what the two signals report through
+						// PTS(); for carriers whose command has no time that need not be the value handed to
+						// SetAdjustPTS (the first version of this check assumed it was; DESIGN section 7)
+						ptsEqSeen := ic.d.SCTE35().PTS() == od.SCTE35().PTS()
+						if ptsEqSeen != ptsEq {
+							c.Count("canclose.pts_equality_read_back_differs_from_values_set")
+							if ic.a.Carrier < 3 && b.Carrier < 3 {
+								c.Fail("canclose:signal-pts-readback", fmt.Sprintf("two signals whose commands carry a time were given the times %d and %d, but PTS() reports %d and %d", ic.a.PTS, b.PTS, ic.d.SCTE35().PTS(), od.SCTE35().PTS()), wit{A: ic.a, B: b, Detail: "SCTE35().PTS()"})
+							}
+						}
+						want := ref.CanClose(byte(in), byte(out), evEq, ptsEqSeen, ic.numEq)
 						got := ic.d.CanClose(od)
 						c.Eval(1)
 						if got != want {
@@ -184,7 +223,7 @@ func run(c *mon.Ctx) {
 								rule = "rule kind " + string(rune(k))
 							}
 							c.Fail(fmt.Sprintf("canclose:%02x>%02x", in, out), fmt.Sprintf("incoming type %#02x CanClose open type %#02x (event ids equal=%v, PTS equal=%v, segment_num==segments_expected=%v, sub-segment variant %d) = %v; the documented table (%s) says %v",
-								in, out, evEq, ptsEq, ic.numEq, ic.subVar, got, rule, want), wit{A: ic.a, B: b, Detail: "a.CanClose(b)"})
+								in, out, evEq, ptsEqSeen, ic.numEq, ic.subVar, got, rule, want), wit{A: ic.a, B: b, Detail: "a.CanClose(b)"})
 						}
 					}
 					if _, ok := ref.CloseRules[byte(in)][byte(out)]; ok {
@@ -255,6 +294,19 @@ func run(c *mon.Ctx) {
 			}
 			if a.Type != 0x34 && a.Type != 0x36 {
 				a.HasSub = false // the encoder only carries sub-segment fields for these types
+			}
+			if len(as)+2 <= poolN && r.Chance(5) {
+				// two descriptors next to each other in one signal (same time, same carrier); often look-alikes
+				b := a
+				b.Noise = r.Uint32() | 1
+				if r.Bool() {
+					b.Event, b.SegNum = evs[r.Intn(2)], byte(1+r.Intn(2))
+				}
+				a.Carrier, b.Carrier = 0, 0
+				d1, d2 := mkPair(a, b)
+				as = append(as, a, b)
+				ds = append(ds, d1, d2)
+				continue
 			}
 			as = append(as, a)
 			ds = append(ds, mk(a))
